@@ -145,6 +145,16 @@ pub struct Record {
     pub requests: Vec<Req>,
     pub malformed: Vec<Vec<u8>>, // first bytes of what could not be read
     pub leftover: Vec<Vec<u8>>,  // bytes still unread when the connection ended
+    pub early: usize,            // requests answered on their head (`/early...` targets)
+}
+
+/// a complete, well-formed head whose target starts with `/early`, the body still missing
+fn head_is_early(acc: &[u8]) -> bool {
+    let Some(end) = acc.windows(4).position(|w| w == b"\r\n\r\n") else { return false };
+    let Ok(Some((line, rest))) = take_line(acc) else { return false };
+    let mut it = line.split(|c| *c == b' ');
+    let (Some(_m), Some(t)) = (it.next(), it.next()) else { return false };
+    t.starts_with(b"/early") && matches!(read_headers(&acc[acc.len() - rest.len()..end + 4]), Ok(Some(_)))
 }
 
 pub fn backend(listener: TcpListener, rec: Arc<Mutex<Record>>) {
@@ -157,6 +167,10 @@ pub fn backend(listener: TcpListener, rec: Arc<Mutex<Record>>) {
             let _ = s.set_nodelay(true);
             let mut acc: Vec<u8> = vec![];
             let mut buf = [0u8; 8192];
+            // a request whose target starts with `/early` is answered as soon as its HEAD is
+            // complete (a server that does not need the body to decide); the rest of the
+            // request is still read, recorded when it is complete, and not answered again
+            let mut answered_early = false;
             loop {
                 match s.read(&mut buf) {
                     Ok(0) | Err(_) => break,
@@ -173,14 +187,29 @@ pub fn backend(listener: TcpListener, rec: Arc<Mutex<Record>>) {
                                 }
                             }
                             acc.drain(..used);
-                            if s.write_all(b"HTTP/1.1 200 OK\r\nContent-Length: 2\r\n\r\nok").is_err() {
+                            if !answered_early && s.write_all(b"HTTP/1.1 200 OK\r\nContent-Length: 2\r\n\r\nok").is_err() {
                                 return;
                             }
+                            answered_early = false;
                             if acc.is_empty() {
                                 break;
                             }
                         }
-                        Ok(None) => break,
+                        Ok(None) => {
+                            if !answered_early && head_is_early(&acc) {
+                                answered_early = true;
+                                {
+                                    let mut g = rec.lock().unwrap();
+                                    if g.epoch == my_epoch {
+                                        g.early += 1;
+                                    }
+                                }
+                                if s.write_all(b"HTTP/1.1 200 OK\r\nContent-Length: 2\r\n\r\nok").is_err() {
+                                    return;
+                                }
+                            }
+                            break;
+                        }
                         Err(()) => {
                             {
                                 let mut g = rec.lock().unwrap();
@@ -231,13 +260,14 @@ pub fn judge_proto(r: &Record, front: SocketAddr, statuses: &[u16], proto: &[u8]
         if rid.len() != 1 {
             out.viol("bb-request-id", &format!("{} X-Request-Id headers", rid.len()));
         }
-        // the correlation id is per client connection: every request of the case
-        // must carry the id sozu gave the first one (a request sozu did not parse
-        // itself cannot know it)
-        if let Some(first) = ids.first() {
-            if same_id && first != sid[0] {
-                out.viol("bb-unrouted", "a request read by the backend carries a correlation id that is not this connection's");
-            }
+        // the correlation id is the REQUEST's: a 26-character ULID sozu generated, different for every
+        // request the backend reads (also for the requests of one keep-alive connection)
+        let _ = same_id;
+        if sid[0].len() != 26 || !sid[0].iter().all(|c| c.is_ascii_alphanumeric()) {
+            out.viol("bb-unrouted", "a request read by the backend carries a correlation id sozu did not generate");
+        }
+        if ids.contains(sid[0]) {
+            out.viol("bb-id-reused", "two requests read by the backend carry the same correlation id (the id is per request)");
         }
         ids.push(sid[0].clone());
         // C13: truthful metadata
@@ -257,6 +287,18 @@ pub fn judge_proto(r: &Record, front: SocketAddr, statuses: &[u16], proto: &[u8]
         if values(&rq.headers, b"x-forwarded-proto").is_empty() || values(&rq.headers, b"x-forwarded-port").is_empty() {
             out.viol("bb-xfp", "X-Forwarded-Proto/Port missing");
         }
+        // a frontend's request-header rule (the driver's cluster "r" appends X-Op: 1) is applied once, also
+        // when the first backend refused the connection and the request was retried on another
+        let host_is = |h: &[u8]| values(&rq.headers, b"host").first().map(|v| v.as_slice() == h).unwrap_or(false);
+        if host_is(b"retry.x") {
+            let n = values(&rq.headers, b"x-op").iter().filter(|v| v.as_slice() == b"1").count();
+            if !values(&rq.headers, b"x-drop").is_empty() {
+                out.viol("bb-operator-header", "the header the frontend's rule deletes (X-Drop) reached the backend");
+            }
+            if n != 1 {
+                out.viol("bb-operator-header", &format!("the request-header rule of the frontend (X-Op: 1) appears {} times in the request the backend read", n));
+            }
+        }
         for (k, _) in &rq.trailers {
             if OWNED.iter().any(|n| k.eq_ignore_ascii_case(n)) {
                 out.viol("bb-trailer-spoof", &format!("trailer {} reached the backend", String::from_utf8_lossy(k).to_ascii_lowercase()));
@@ -264,8 +306,44 @@ pub fn judge_proto(r: &Record, front: SocketAddr, statuses: &[u16], proto: &[u8]
         }
     }
     let ok = statuses.iter().filter(|c| **c == 200).count();
-    if ok > r.requests.len() {
+    // (a request answered on its head is only among `requests` once its body has arrived as well)
+    if ok > r.requests.len() + r.early {
         out.viol("bb-answers", &format!("the client got {} backend answers for {} requests the backend saw", ok, r.requests.len()));
+    }
+}
+
+/// What the CLIENT sent, read by the same strict reader: `Some(requests)` when the whole byte string is a
+/// sequence of well-formed requests (the last one possibly incomplete), `None` when it is not.
+pub fn client_intent(raw: &[u8]) -> Option<Vec<Req>> {
+    let mut s = raw;
+    let mut out = vec![];
+    while !s.is_empty() {
+        match read_request(s) {
+            Ok(Some((rq, rest))) => {
+                out.push(rq);
+                s = rest;
+            }
+            Ok(None) => break,
+            Err(()) => return None,
+        }
+    }
+    Some(out)
+}
+
+/// The request boundaries the backend sees are the client's: when what the client sent is, for a strict
+/// reader, a sequence of well-formed requests, the backend reads at most that many, with those targets in that
+/// order (sozu may refuse some; it may not invent one, e.g. by reading a body as a request).
+pub fn judge_boundaries(r: &Record, raw: &[u8], out: &mut Out) {
+    let Some(sent) = client_intent(raw) else { return };
+    let mut i = 0;
+    for rq in &r.requests {
+        match sent[i..].iter().position(|c| c.target == rq.target) {
+            Some(p) => i += p + 1,
+            None => {
+                out.viol("bb-boundaries", &format!("the backend read a request ({}) that is not one of the {} request(s) the client sent, in order: a body or a tail was read as a request", String::from_utf8_lossy(&rq.target), sent.len()));
+                return;
+            }
+        }
     }
 }
 
